@@ -301,4 +301,54 @@ def recoverTopic (crc : Bytes → Nat) (mk : Alloc) (restoreMs : Int) (allowed :
     | (.ok sums, st) => ⟨.ok sums, st.s3, false⟩
     | (r, st) => ⟨r, (rollback st.copied.reverse st.s3).1, (rollback st.copied.reverse st.s3).2⟩
 
+/-! ### the restore time is a `time.Time`, not a millisecond count
+
+`cfg.RestoreTo` has nanosecond resolution; record timestamps and segment creation times are
+millisecond counts.  The code converts in two places:
+
+* `buildRestorePlan`: `collectRecoverableBatches(segmentBytes, restoreTo.UnixMilli())`;
+* candidate selection: `segment.CreatedAt.After(cfg.RestoreTo)` with
+  `CreatedAt = time.UnixMilli(header field)`.
+
+Go's `Time` (without monotonic reading) is a pair (seconds since the epoch, floored; `nsec ∈ [0, 10^9)`):
+`time.Unix(sec, nsec)` normalises to that form, `UnixMilli()` is `unixSec()*1e3 + nsec()/1e6` and
+`After` compares the pairs lexicographically.  Since `nsec` is never negative, `UnixMilli` rounds towards
+minus infinity for times before 1970 as well (`time.Unix(0, -1).UnixMilli() = -1`, not `0`). -/
+
+structure GoTime where
+  sec : Int
+  nsec : Nat
+deriving DecidableEq, Repr
+
+/-- the invariant of Go's representation -/
+def GoTime.Valid (t : GoTime) : Prop := t.nsec < 1000000000
+
+/-- `time.Unix(0, ns)`: Go divides truncating and then moves a negative remainder up by one second,
+which is floor division -/
+def GoTime.ofNanos (ns : Int) : GoTime := ⟨ns / 1000000000, (ns % 1000000000).toNat⟩
+
+/-- `time.UnixMilli(ms)` = `Unix(ms/1e3, (ms%1e3)*1e6)` after normalisation -/
+def GoTime.ofMilli (ms : Int) : GoTime := ⟨ms / 1000, ((ms % 1000) * 1000000).toNat⟩
+
+/-- `t.UnixMilli()` = `t.unixSec()*1e3 + int64(t.nsec())/1e6` (no int64 overflow for |t| < 292 million years) -/
+def GoTime.unixMilli (t : GoTime) : Int := t.sec * 1000 + ((t.nsec / 1000000 : Nat) : Int)
+
+/-- `t.UnixNano()` (mathematical value) -/
+def GoTime.unixNano (t : GoTime) : Int := t.sec * 1000000000 + (t.nsec : Int)
+
+/-- `t.After(u)` -/
+def GoTime.after (t u : GoTime) : Bool := decide (t.sec > u.sec) || (decide (t.sec = u.sec) && decide (t.nsec > u.nsec))
+
+/-- `lastCandidate` as the code computes it: `segment.CreatedAt.After(cfg.RestoreTo)` on `time.Time`s -/
+def lastCandidateAt (restoreTo : GoTime) : List Src → Nat
+  | [] => 0
+  | [_] => 0
+  | s :: t => if (GoTime.ofMilli s.created).after restoreTo then 0 else 1 + lastCandidateAt restoreTo t
+
+/-- `RecoverTopicToTimestamp` with `cfg.RestoreTo = restoreTo`: the millisecond model run at
+`restoreTo.UnixMilli()` (`KafVerif.C08.cutoff_is_floor` and `KafVerif.C08.candidate_after_is_floor` say why this is the
+code: the record cutoff is that value by definition, and `lastCandidateAt restoreTo = lastCandidate restoreTo.unixMilli`) -/
+def recoverTopicAt (crc : Bytes → Nat) (mk : Alloc) (restoreTo : GoTime) (allowed : List Int) (s : S3) : RecoverOut :=
+  recoverTopic crc mk restoreTo.unixMilli allowed s
+
 end KafVerif.Kafka
